@@ -107,7 +107,15 @@ def build_dataclass(term, reg: Registry):
     ns: dict[str, Any] = {"__module__": reg.submodule(dmod).__name__ if dmod else reg.modname, "__qualname__": pyname}
     for f in own_fields:
         fname, ftype, dflt, fopts = f[0], f[1], f[2], f[3] if len(f) > 3 else []
-        t = concretize_type(ftype, reg)
+        if get_opt(cfg, "pep585"):
+            # this class spells its containers list[X] / dict[K, V] / tuple[A, B] (PEP 585) -- same types, another spelling
+            old585, reg.pep585 = getattr(reg, "pep585", False), True
+            try:
+                t = concretize_type(ftype, reg)
+            finally:
+                reg.pep585 = old585
+        else:
+            t = concretize_type(ftype, reg)
         aalias = get_opt(fopts, "aalias")
         if aalias is not None:
             t = typing.Annotated[t, Alias(aalias)]
@@ -197,7 +205,7 @@ def build_dataclass(term, reg: Registry):
         elif k == "classvars":
             for cv, val in o[1]:
                 ns[cv] = concretize_value(val, reg)
-        elif k in ("mixin", "bases", "redeclared", "sorted_idx", "discr_field", "hooks", "slots", "frozen", "no_config", "generic_params", "module", "extras", "pyname"):
+        elif k in ("mixin", "bases", "redeclared", "sorted_idx", "discr_field", "hooks", "slots", "frozen", "no_config", "generic_params", "module", "extras", "pyname", "pep585"):
             pass
         else:
             raise BridgeError(f"unknown cfg option {k}")
